@@ -293,10 +293,19 @@ def check_metric_rep(desc, c, ctx):
             vals[f"{tr},{sr}"] = float(np.real(v))
     ctx.count("metric_rep:pairs")
     det = {"n": n, "values": vals, "reference": ref}
-    for k, v in vals.items():
-        if abs(v - ref) > TOL * 10:
-            ctx.violation("infidelity_representation_mismatch", desc, det, key="infid_rep:" + k)
-            break
+    bad = [k for k, v in vals.items() if abs(v - ref) > TOL * 10]
+    if bad:
+        key = "infid_rep:" + bad[0]
+        # mechanism of the known finding: only the evaluation that converts a stabilizer state into a density matrix is
+        # off, the state has a negative generator sign, and the value is the infidelity with the sign-stripped state
+        if bad == ["dm,s"]:
+            x, z, r, _ = t2.to_graphiq()
+            if r.any():
+                stripped = pauli.PTab.from_graphiq(x, z, 0 * r)
+                bug = 1 - float(np.real(np.trace(c["rho"] @ dense.projector_of_group(stripped))))
+                if abs(vals["dm,s"] - bug) < TOL * 10:
+                    key = "stab-to-density-ignores-signs"
+        ctx.violation("infidelity_representation_mismatch", desc, det, key=key)
     ok, v = _call(ctx, desc, "TraceDistance.evaluate", lambda: TraceDistance(mk(t1, "dm")).evaluate(mk(t2, "dm"), None))
     if ok and abs(float(np.real(v)) - dense.trace_distance(c["rho"], c["sigma"])) > TOL * 10:
         ctx.violation("trace_distance_metric", desc, {"got": float(np.real(v))}, key="td_metric")
